@@ -36,6 +36,32 @@ func c06Impl() *verifc06.Impl {
 			KeyGen(&pk, &sk)
 			return pk[:]
 		},
+		SharedAlias: func(mode string, k, u []byte) ([]byte, bool, []byte, []byte) {
+			var out, sk, pk Key
+			copy(sk[:], k)
+			copy(pk[:], u)
+			switch mode {
+			case "out=u":
+				ok := Shared(&pk, &sk, &pk)
+				return pk[:], ok, sk[:], nil
+			case "out=k":
+				ok := Shared(&sk, &sk, &pk)
+				return sk[:], ok, nil, pk[:]
+			case "k=u": // one object is both secret and peer value
+				ok := Shared(&out, &sk, &sk)
+				return out[:], ok, sk[:], nil
+			case "out=k=u":
+				ok := Shared(&sk, &sk, &sk)
+				return sk[:], ok, nil, nil
+			}
+			panic("harness: unknown aliasing mode " + mode)
+		},
+		KeyGenAlias: func(k []byte) []byte {
+			var x Key
+			copy(x[:], k)
+			KeyGen(&x, &x)
+			return x[:]
+		},
 		Backend: c06Backend(),
 		Globals: func() string {
 			h := sha256.New()
